@@ -44,8 +44,19 @@ type valueVertex struct {
 	Value   reflect.Value
 }
 
+// vertexKey is the identity of the vertices that stand for values. The parts
+// are compared as they are: formatting them into one string would let a name
+// or subtype that contains the separator, or two types that print the same,
+// collide with an unrelated vertex.
+type vertexKey struct {
+	kind    string
+	name    string
+	typ     reflect.Type
+	subtype string
+}
+
 func (v *valueVertex) Hashcode() interface{} {
-	return fmt.Sprintf("%s/%s/%s", v.Name, v.Type.String(), v.Subtype)
+	return vertexKey{kind: "value", name: v.Name, typ: v.Type, subtype: v.Subtype}
 }
 
 // value returns the Value structures for this vertex. This is useful
@@ -80,10 +91,12 @@ type typedArgVertex struct {
 }
 
 func (v *typedArgVertex) Hashcode() interface{} {
-	return fmt.Sprintf("arg: %s/%s", v.Type.String(), v.Subtype)
+	return vertexKey{kind: "arg", typ: v.Type, subtype: v.Subtype}
 }
 
-func (v *typedArgVertex) String() string { return v.Hashcode().(string) }
+func (v *typedArgVertex) String() string {
+	return fmt.Sprintf("arg: %s/%s", v.Type.String(), v.Subtype)
+}
 
 // See valueVertex.value
 func (v *typedArgVertex) value() *Value {
@@ -107,11 +120,11 @@ type typedOutputVertex struct {
 }
 
 func (v *typedOutputVertex) Hashcode() interface{} {
-	return fmt.Sprintf("out: %s/%s", v.Type.String(), v.Subtype)
+	return vertexKey{kind: "out", typ: v.Type, subtype: v.Subtype}
 }
 
 func (v *typedOutputVertex) String() string {
-	str := v.Hashcode().(string)
+	str := fmt.Sprintf("out: %s/%s", v.Type.String(), v.Subtype)
 	if v.Value.IsValid() {
 		str += fmt.Sprintf(" (value: %v)", v.Value.Interface())
 	}
